@@ -411,9 +411,9 @@ class Runner:
         case = j["case"]
         unid = self.read(j, "unid.fasta") or []
         n_of = lambda recs: sorted(int(x["attrs"].get("n", "i:-1")[2:]) for x in recs)
-        if n_of(stdout) != sorted(case["kept"]) or n_of(unid) != sorted(case["disc"]):
+        if n_of(stdout) != sorted(case["nkept"]) or n_of(unid) != sorted(case["ndisc"]):
             self.fail(j, "mux.partition", "identified reads %s unidentified %s ; expected %s and %s" %
-                      (n_of(stdout), n_of(unid), case["kept"], case["disc"]))
+                      (n_of(stdout), n_of(unid), case["nkept"], case["ndisc"]))
 
 
 CONFIGS = [(cpu, bs) for cpu in (2, 8) for bs in (1, 3)]
@@ -452,7 +452,7 @@ def schedule_last_batch(ctx, runner, cases, thorough):
     small = [c for c in cases if c["tool"] == "grep" and 1 <= len(c["disc"]) <= 2]
     small = vlib.sample(ctx.rng, [c for c in small if c["mode"] == "none"], 40) + \
         vlib.sample(ctx.rng, [c for c in small if c["mode"] != "none"], 20)
-    mux = [c for c in cases if c["tool"] == "mux" and 1 <= len(c["disc"]) <= 2]
+    mux = [c for c in cases if c["tool"] == "mux" and 1 <= len(c["ndisc"]) <= 2]
     reps = 12 if thorough else 5
     k = 1000000 + ctx.seed
     for _ in range(reps):
@@ -502,29 +502,97 @@ def main(ctx):
         ctx.expect_vacuity("class " + need, ctx.classes.get(need, 0))
     ctx.samples.append({"case": {k: v for k, v in cases[len(cases) // 2].items() if k != "out"}})
 
+    # R (b): the same cases at library level (one child process of the harness per command line) -----
+    res = ctx.path("res.ndjson")
+    ctx.harness(["replay", "C16", "--cases", cases_path, "--out", res], timeout=1500)
+    summ = ctx.add_results(res)
+    nlib = sum(1 for c in cases if c["tool"] in ("grep", "annot", "dist"))
+    if summ["checked"] + summ["failed"] != nlib:
+        raise vlib.Inconclusive("library replay judged %d of %d cases" % (summ["checked"] + summ["failed"], nlib))
+    for need in ("lib/grep", "lib/grep/paired", "lib/annot", "lib/dist"):
+        ctx.expect_vacuity("class " + need, ctx.classes.get(need, 0) + summ["failed"])
+
+    # T: random command lines x random records, judged by OptTrace ------------------------------------
+    trace = ctx.path("trace.ndjson")
+    ctx.harness(["record", "C16", "--out", trace, "--n", 4000 if thorough else 700], timeout=1500)
+    judge_trace(ctx, trace)
+
     ctx.assumptions += [
         "regular expressions and expressions of the embedded language are atoms whose meaning is tabulated in OptData.tla",
         "--cut positions: 1-based inclusive, negative = len+p+1 (as implemented; undocumented option), window clamped to the sequence",
         "-v without any criterion, several values of a single-valued option, chained or colliding -R/-S are outside the quantification",
-        "taxonomic options (-t -r -i --require-rank) belong to C14",
+        "taxonomic options (-t -r -i --require-rank) belong to C14; --approx-pattern/--pattern (approximate matching) to C10",
+        "a command that crashes or hangs is run again twice; a failure that does not repeat is counted (sporadic_process_failures), not judged",
     ]
-    return ctx.finish(rule="case = one command line (set of option instances, -v, paired mode) on the curated data set; "
-                           "each is run on the real binaries under seeded (--max-cpu, --batch-size, format, --save-discarded) configurations")
+    return ctx.finish(rule="case = one command line (set of option instances, -v, paired mode) on the curated data set, run on the real "
+                           "binaries under seeded (--max-cpu, --batch-size, format, --save-discarded) configurations and at library level; "
+                           "trace event = one random command line on 4-15 random records through the library entry points")
+
+
+def trace_class(ev):
+    if ev["tool"] == "dist":
+        D = ev["D"]
+        return "dist/" + ("c" + ("+d" if D["d"] else "") if D["c"] else ("n" if D["n"] else "h"))
+    return case_class({"tool": ev["tool"], "opts": ev.get("opts", []), "v": ev.get("v", 0), "mode": ev.get("mode", "none")})
+
+
+def judge_trace(ctx, trace):
+    events, rejects = ctx.trace_validate("OptTrace", "OptTrace.cfg", trace, timeout=1500)
+    tools = {}
+    for ev in events:
+        k = "trace/" + ev["tool"] + ("/paired" if ev.get("mode", "none") != "none" else "")
+        tools[k] = tools.get(k, 0) + 1
+    for k, v in tools.items():
+        ctx.classes[k] = ctx.classes.get(k, 0) + v
+    for r in rejects:
+        ev = events[r["l"] - 1]
+        if r["why"] in ("bad-event", "unknown-tool"):
+            raise vlib.Inconclusive("the generator produced an event outside the domain of the specification: %s" % json.dumps(ev)[:600])
+        got = ev["files"] if ev["tool"] == "dist" else [x["id"] for x in ev["out"]]
+        ctx.violation("C16.trace.%s.%s" % (ev["tool"], r["why"]), trace_class(ev),
+                      "%s on %d random records: what came out is rejected by OptTrace (%s): %s %s" %
+                      (" ".join(ev["argv"]), len(ev["recs"]), r["why"], str(got)[:300], ev.get("msg", "")), ev)
+    for need in ("trace/grep", "trace/grep/paired", "trace/annot", "trace/dist"):
+        ctx.expect_vacuity("class " + need, ctx.classes.get(need, 0))
+    ctx.samples.append({"trace_event": {k: events[0][k] for k in ("tool", "argv", "pred") if k in events[0]}})
 
 
 def replay_one(ctx):
+    """bin/check C16 --replay <file>: re-runs one reported violation (binary level: the command line under every
+    configuration; library level: the case through the harness; trace event: OptTrace on the recorded event)."""
     blob = json.load(open(ctx.replay))
     case = blob["case"]
+    if "recs" in case:
+        tr = ctx.path("trace.ndjson")
+        vlib.write_ndjson(tr, [case])
+        judge_trace_one(ctx, tr)
+        return ctx.finish()
     cases_path = ctx.path("cases.ndjson")
     ctx.tlc_model("OptCases", "OptCases_data.cfg", env={"VERIF_CASES": cases_path, "VERIF_SEED": 1}, timeout=600)
     data = [c for c in vlib.read_cases(cases_path) if c["tool"] == "data"][0]
+    clean = {x: y for x, y in case.items() if not x.startswith("_")}
+    if blob["assert"].startswith("C16.lib."):
+        one = ctx.path("one.ndjson")
+        vlib.write_ndjson(one, [data, clean])
+        for rep in range(4):
+            res = ctx.path("res%d.ndjson" % rep)
+            ctx.harness(["replay", "C16", "--cases", one, "--out", res], env={"VERIF_SEED": ctx.seed + rep})
+            ctx.add_results(res)
+        return ctx.finish()
     runner = Runner(ctx, data)
     k = 0
     for cpu, bs in CONFIGS:
-        for fq in ((False, True) if case["tool"] in ("grep", "annot") else (False,)):
-            for save in ((False, True) if case["tool"] == "grep" else (False,)):
+        for fq in ((False, True) if clean["tool"] in ("grep", "annot") else (False,)):
+            for save in ((False, True) if clean["tool"] == "grep" else (False,)):
                 for rep in range(3):
                     k += 1
-                    runner.add({x: y for x, y in case.items() if not x.startswith("_")}, cpu, bs, fq, save, k)
+                    runner.add(clean, cpu, bs, fq, save, k)
     runner.run()
     return ctx.finish()
+
+
+def judge_trace_one(ctx, tr):
+    events, rejects = ctx.trace_validate("OptTrace", "OptTrace.cfg", tr)
+    for r in rejects:
+        ev = events[r["l"] - 1]
+        ctx.violation("C16.trace.%s.%s" % (ev["tool"], r["why"]), trace_class(ev), "recorded event rejected again", ev)
